@@ -1334,8 +1334,12 @@ fn execute_multi_thread_files(mut stdout: io::StdoutLock, args: &Opts) {
 		write!(stdout, "{json}").ok();
 		return
 	}
-	for (path, contents) in results {
-		let output = format_output(args, contents);
+	// Render every file before touching any of them: format_output() exits on a template error,
+	// and that must not happen after some files have already been overwritten.
+	let results = results.into_iter()
+		.map(|(path, contents)| (path, format_output(args, contents)))
+		.collect::<Vec<_>>();
+	for (path, output) in results {
 
 		if args.edit_inplace {
 			if args.backup_files {
